@@ -18,7 +18,7 @@ from harness import probes
 
 PROP = "C06"
 TARGETS = ["IbicusModel.Props.C06Inst"]
-GEN = ["Windows", "Debiasers"]
+GEN = ["Windows", "Debiasers", "PrecipFit"]
 
 PERM_KINDS = ["full", "blockswap", "rotate", "reverse", "identity"]
 PR_THR = 0.0000011574  # lower threshold of ISIMIP's pr settings
@@ -529,7 +529,12 @@ def _run(tier, res, force_search=False):
         "np.argsort is modelled as a stable sort: rank-based theorems carry a tie-free (Nodup) hypothesis on cm_future",
         "distribution families are parameters; the only law used is 'fit does not depend on the storage order' (proved for the rational "
         "test double, assumed for scipy's families; scipy.stats.norm.fit is mean / std)",
-        "layer-N models Model/Debiasers.lean, Model/Isimip.lean validated against the real per-window code by harness/debiasers_corr.py, harness/isimip_corr.py",
+        "layer-N models Model/Debiasers.lean, Model/Isimip.lean validated against the real per-window code by harness/debiasers_corr.py, harness/isimip_corr.py "
+        "(windows, step 1 / step 8 and the whole apply_location also on non-chronological storage)",
+        "tier A: the censored-gamma fit hands its optimiser a filter of the sample and a count (Gen.PrecipFit = Model.PrecipFit); the optimiser "
+        "(_fit_censored_gamma, Nelder-Mead) is a parameter assumed to be a function of the multiset of its sample (InnerOrderFree)",
+        "ISIMIP: the numbers np.random.uniform returned and the decisions of linregress / KS are parameters of the model, a function of the window "
+        "(centre); both runs of a comparison get the same function (oracle: the same numpy seed)",
     ]
     res.assumptions = [
         "exact rational arithmetic in the theorems; float summation order is carried by the oracle's tolerance 1e-9*(1+scale)",
@@ -549,7 +554,8 @@ def _run(tier, res, force_search=False):
 
         mods = ["IbicusModel.Props.C06Inst", "IbicusModel.Props.C06", "IbicusModel.Lemmas.C06Stats", "IbicusModel.Lemmas.C06Rank",
                 "IbicusModel.Lemmas.C06Years", "IbicusModel.Lemmas.C06Except", "IbicusModel.Lemmas.C06Isimip",
-                "IbicusModel.Lemmas.C06Months", "IbicusModel.Lemmas.C06Detrend"]
+                "IbicusModel.Lemmas.C06Months", "IbicusModel.Lemmas.C06Detrend", "IbicusModel.Lemmas.C06Step4", "IbicusModel.Lemmas.C06Window",
+                "IbicusModel.Lemmas.C06Centre", "IbicusModel.Lemmas.C06MonthsC", "IbicusModel.Lemmas.C06Cycle", "IbicusModel.Lemmas.GenPrecipFit"]
         with open(C.LOCK, "w") as lk:
             fcntl.flock(lk, fcntl.LOCK_SH)
             rc, log = C._run(["lake", "env", "leanchecker"] + mods)
@@ -586,6 +592,9 @@ def _run(tier, res, force_search=False):
         if mm:
             res.tie_broken.append(f"correspondence DrvDebiasers: {len(mm)} mismatches, first: {str(mm[0])[:600]}")
         mm2 = isimip_corr.correspondence(rng, n_isi, tier, res)
+        # step 1 / step 8 and the whole apply_location (step 1 -> window loop -> step 8), mostly on NON-chronological storage
+        mm2 += isimip_corr.correspondence_aux(rng, 10 if tier == "quick" else 80, tier, res, shuffle_prob=0.7)
+        mm2 += isimip_corr.correspondence_location(rng, 6 if tier == "quick" else 40, tier, res, shuffle_prob=0.7)
         if mm2:
             res.tie_broken.append(f"correspondence DrvIsimip: {len(mm2)} mismatches, first: {str(mm2[0])[:600]}")
     except Exception as ex:  # noqa: BLE001
